@@ -26,6 +26,12 @@ pub enum Event {
     /// Bytes about to be fetched through a `Reader` (absolute mmap range) together with the
     /// reader's snapshot of its region.
     Access { region_start: usize, region_len: usize, offset: usize, len: usize },
+    /// `len` bytes about to be fetched through a raw pointer at address `addr` (vecdb read
+    /// sites; the harness maps the address to the memory map or to a heap buffer).
+    PtrRead { addr: usize, len: usize },
+    /// `len` bytes about to be fetched from the data file at absolute file offset `offset`
+    /// (vecdb file-IO sources; `len == 0`: a seek to that offset).
+    FileRead { offset: usize, len: usize },
 }
 
 pub type Sink = Box<dyn Fn(&Event) + Send + Sync>;
